@@ -111,6 +111,77 @@ pub fn comb(n: usize, x0: f64) -> Polygon<f64> {
     Polygon::new(LineString(pts), vec![])
 }
 
+fn ring_area2(r: &LineString<f64>) -> f64 {
+    let mut s = 0.0;
+    for w in r.0.windows(2) {
+        s += w[0].x * w[1].y - w[1].x * w[0].y;
+    }
+    s
+}
+
+/// closed-form checks on the result of a large operation: every ring is closed, every vertex is a vertex of
+/// an operand or one of the listed crossing points, the numbers of polygons and of interior rings and the
+/// area are the expected ones.  A failure ends the child process with a message starting `LARGE-CHECK`.
+fn verify_large(
+    name: &str,
+    r: &MultiPolygon<f64>,
+    inputs: &[&MultiPolygon<f64>],
+    extra: &[(f64, f64)],
+    area: f64,
+    polys: usize,
+    holes: usize,
+) {
+    use std::collections::HashSet;
+    let key = |c: &Coord<f64>| ((c.x + 0.0).to_bits(), (c.y + 0.0).to_bits());
+    let mut allowed: HashSet<(u64, u64)> = HashSet::new();
+    for mp in inputs {
+        for p in &mp.0 {
+            for ring in std::iter::once(p.exterior()).chain(p.interiors().iter()) {
+                for c in &ring.0 {
+                    allowed.insert(key(c));
+                }
+            }
+        }
+    }
+    for &(x, y) in extra {
+        allowed.insert(key(&Coord { x, y }));
+    }
+    let fail = |msg: String| -> ! {
+        println!("LARGE-CHECK {} {}", name, msg);
+        std::process::exit(3)
+    };
+    let mut total = 0.0;
+    let mut nholes = 0;
+    for p in &r.0 {
+        for (k, ring) in std::iter::once(p.exterior()).chain(p.interiors().iter()).enumerate() {
+            if ring.0.len() < 4 {
+                fail(format!("a_ring_of_the_result_has_{}_coordinates", ring.0.len()));
+            }
+            if ring.0.first() != ring.0.last() {
+                fail("a_ring_of_the_result_is_not_closed".to_string());
+            }
+            for c in &ring.0 {
+                if !allowed.contains(&key(c)) {
+                    fail(format!("result_vertex_({},{})_is_neither_an_operand_vertex_nor_a_crossing", c.x, c.y));
+                }
+            }
+            let a = ring_area2(ring).abs() / 2.0;
+            if k == 0 {
+                total += a
+            } else {
+                total -= a;
+                nholes += 1
+            }
+        }
+    }
+    if r.0.len() != polys || nholes != holes {
+        fail(format!("{}_polygons_with_{}_interior_rings,_expected_{}_and_{}", r.0.len(), nholes, polys, holes));
+    }
+    if (total - area).abs() > 1e-9 * area.abs().max(1.0) {
+        fail(format!("area_{}_expected_{}", total, area));
+    }
+}
+
 fn scenario(name: &str, n: i64) {
     let marker = 0u8;
     BASE.with(|b| b.set(&marker as *const u8 as usize));
@@ -260,6 +331,9 @@ fn scenario(name: &str, n: i64) {
             )]);
             let r = a.union(&b);
             assert!(!r.0.is_empty());
+            // b lies inside a: the union is a itself
+            let area: f64 = a.0.iter().map(|p| ring_area2(p.exterior()).abs() / 2.0).sum();
+            verify_large(name, &r, &[&a, &b], &[], area, a.0.len(), 0);
         }
         "holes" => {
             // one polygon with n holes stacked in one column, united with a rectangle at its side: every hole
@@ -298,6 +372,7 @@ fn scenario(name: &str, n: i64) {
             let r = a.union(&b);
             assert_eq!(r.0.len(), 1);
             assert_eq!(r.0[0].interiors().len(), n as usize);
+            verify_large(name, &r, &[&a, &b], &[(10.0, 1.0)], 10.0 * h - n as f64 + 2.0, 1, n as usize);
         }
         "sweepdesc" => {
             // tips at x = 1 .. 1 + n/1000 enter top to bottom; the clipping box ends at x = 800 < 900, so the
